@@ -91,6 +91,8 @@ impl<'a> PrettyPrinter<'a> {
     }
 
     pub fn convert_expr(&'a self, ctx: Context, expr: Expr<'a>) -> ArenaDoc<'a> {
+        #[cfg(typstyle_verif)]
+        crate::verif::visit("expr", expr.to_untyped().span());
         if let Some(res) = self.check_disabled(expr.to_untyped()) {
             return res;
         }
